@@ -115,8 +115,15 @@ CHECKS = [
      "the relations on the observed outputs. AUC invariance under increasing affine maps and under negation is proved for the "
      "reference semantics on ALL inputs (mwi_mw_affine / mwi_mw_negate, mwi_step_affine / mwi_step_negate) and for the "
      "code-shaped model through C07 (C08_affine_auc*, C08_negate_auc*); EER equivariance under increasing affine maps is proved "
-     "(C06_affine: mapped threshold, same rate, all inputs). EER under negation is evaluated as a relation between two real runs.",
-     BASE_NOTE + "EER equivariance under NEGATION is evaluated on every case, not proved; the AUC theorems for the code-shaped "
+     "(C06_affine: mapped threshold, same rate, all inputs). EER under negation: the exact statement is REFUTED in the model with the "
+     "float64 nextafter oracle even for tie-free scores (C08_negate_eer_value_tiefree_statement_false, "
+     "C08_negate_eer_threshold_tiefree_false: deviations of one nextafter step / ~2^-33, below the root finder's xtol; the real "
+     "implementation returns the same values) and proved in conditional form (C08_negate_eer_partial: exact whenever every "
+     "threshold call of the run avoids the excluded stretch of C08_negate_threshold; C08_negate_eer_value; C08_negate_eer_shortcut "
+     "unconditionally on the perfect-separation path; c08e_findRoot_congr: the root finder depends only on the signs at its probes). "
+     "GroupScores (the second anchored file): the same three relations are evaluated on per-group rates and matrices.",
+     BASE_NOTE + "EER equivariance under NEGATION holds only up to the root finder's tolerance (xtol = 1e-10): the run compares "
+     "values to 1e-8 and thresholds to 1e-7*scale on tie-free data; the AUC theorems for the code-shaped "
      "model carry the C07 hypotheses (sorted arrays, a scored negative, lawful neighbourly nextafter oracle); EER relations are "
      "claimed for tie-free scores; float thresholds compared up to a few ulp.",
      "Lean 4 proof about a hand-written model + metamorphic correspondence check", "DESIGN.md §5 C08"),
@@ -164,8 +171,8 @@ CHECKS = [
      "the spec is evaluated with eps = 1e-9. Tied to /repo by comparing (t, e) with the model on tie-free data and evaluating "
      "rangeOK / crossingOK / zeroOK on the implementation's own matrix at its returned threshold on every case.",
      BASE_NOTE + "PARTIAL: the data-dependent bound on delta that connects the crossing bracket to the FNR sandwich is not "
-     "formalised; the FNR side and the negation equivariance are evaluated on every sampled case (affine equivariance is "
-     "proved: C06_affine). With ties the EER value is "
+     "formalised; the FNR side is evaluated on every sampled case; affine equivariance is proved (C06_affine), negation "
+     "equivariance is refuted in exact form and proved in conditional form (C08_negate_eer_partial / _value / _shortcut). With ties the EER value is "
      "not compared with the exact model. np.isclose by its formula; bisection with fuel 64.",
      "Lean 4 proof (partial) about a hand-written model + differential correspondence check", "DESIGN.md §5 C06"),
  chk("C20",
@@ -276,7 +283,9 @@ CHECKS = [
      BASE_NOTE + "That NumPy's primitives answer inside the textbook supports with the textbook means is assumed, not proved "
      "('unbiased' is proved as parameter algebra, C11_mean); the smoothing noise is not modelled (only flags, sizes, strata, "
      "ordering with smoothing); the float product ratio*n is an oracle checked to be a faithful rounding; callable samplers are "
-     "checked in the harness only. Open known finding: smoothing raises ValueError('scale < 0') when a resampled class has IQR -0.0.",
+     "checked in the harness only. Progress and totality are theorems: on every ok prefix the next request is one NumPy accepts "
+     "(C11_progress / _prefix / _iff: exactly when proportion sizes fit the classes), and a succeeding in-support script exists "
+     "for every runnable configuration (C11_totality / _iff / _ok), so the 'for every in-support script' theorems are not vacuous.",
      "Lean 4 proof about a hand-written model with a scripted RNG + differential correspondence check", "DESIGN.md §5 C11"),
  chk("C18",
      "Lean theorems over exact rationals, for ALL data rows (key = one code per group column, label flag, score), 4 configurations, "
